@@ -31,6 +31,9 @@ class ExprUnaryModel(ExprModel):
         # Currently-supported unary expressions have the 
         # same width as the base expression
         return self.expr.width()
+    
+    def is_signed(self):
+        return self.expr.is_signed()
         
     def accept(self, v):
         v.visit_expr_unary(self)
